@@ -42,7 +42,11 @@ META = {
     "note": "Trusted: vf/sched.py (one thread runs at a time; parks before shim-lock acquires), the projection of "
             "real events onto Read/Done/Tick, the reading of 'window' (DESIGN 7a: ttl from the clock value read at "
             "acceptance) and of 'distinct nonces arrived' (other nonces linearized after the acceptance).  Bounded: "
-            "2-3 threads, <=2 presentations per thread, clock <=3 ticks.",
+            "2-3 threads, <=2 presentations per thread, clock <=3 ticks; sequential family: 1 thread, 6-8 "
+            "presentations, 4 nonces up to renaming.  A model tick is concretised as 1 s / 0.5 s / 0.125 s / 30 s with "
+            "integral, fractional and very large clock origins; nonces as 22-char base64url strings, a fresh object "
+            "per presentation.  The gate/verify_proof entry point (vgi_rpc/http/_proof.py) is C22's, not replayed "
+            "here.",
 }
 
 _ARG1 = re.compile(r'\(\s*\\?"?(\w+)')
